@@ -1,3 +1,4 @@
+import json
 """Terms as JSON-able Python values, their Gallina rendering, and conversion to and
 from the implementation's objects.
 
@@ -198,6 +199,8 @@ class ImplTerms:
         self.engines = engines if isinstance(engines, (list, tuple)) else [engines]
         self.vars = []
         self.ids = {}
+        self.reuse = False       # when set, a compound term that is built again is THE SAME engine object (a caller that holds
+        self.cache = {}          # one term object and passes it to several API calls while bindings come and go)
         for _ in range(nvars):
             self.new_var()
     def new_var(self):
@@ -220,6 +223,11 @@ class ImplTerms:
         if k == 'v':
             return self.var(t[1])
         if k == 'f':
+            if self.reuse:
+                key = json.dumps([t, eng % len(self.engines)])
+                if key not in self.cache:
+                    self.cache[key] = yp.functor(t[1], [self.build(a, eng) for a in t[2]])
+                return self.cache[key]
             return yp.functor(t[1], [self.build(a, eng) for a in t[2]])
         raise ValueError(t)
     def read(self, obj, resolve=True, depth=0):
